@@ -215,6 +215,19 @@ func runRangeLabelAgreement(c *Ctx, r *Rep) {
 							} else if k, okc = charVal(be.X); okc {
 								isUpper = true
 							}
+						// the same range written as its complement: X < 'lo' || X > 'hi' leaves the class
+						case token.LSS:
+							if k, okc = charVal(be.Y); okc {
+								isLower = true
+							} else if k, okc = charVal(be.X); okc {
+								isUpper = true
+							}
+						case token.GTR:
+							if k, okc = charVal(be.Y); okc {
+								isUpper = true
+							} else if k, okc = charVal(be.X); okc {
+								isLower = true
+							}
 						}
 						if !okc || k < lo-16 || k > hi+16 {
 							return true
